@@ -41,8 +41,8 @@ def sequences_from_graph(g):
     return seqs
 
 
-def judge(v, seq, seed, rnd, stats):
-    loop, ex = mainloop.run_behaviour(seq, seed, rnd)
+def judge(v, seq, seed, rnd, stats, edit_silent_peer=None):
+    loop, ex = mainloop.run_behaviour(seq, seed, rnd, edit_silent_peer=edit_silent_peer)
     stats['runs'] += 1
     stats['events'] += len(loop.events_done)
     stats['max_lines_per_event'] = max(stats['max_lines_per_event'], loop.max_lines)
@@ -88,18 +88,34 @@ def run(tier, replay=None):
     # every hostile kind at every moment of the legitimate session (all schedules with one hostile event), from the dumped graph
     g = tlcgraph.dump('MainLoop.tla', cfg(1 if tier == 'quick' else 2, fair=False, dump=True), 'mainloop', {}, lambda st: True)
     g.full_sources = True
-    seqs = [s for s in sequences_from_graph(g) if s.count('legit') == 5]
+    import re
+    legit_steps = int(re.search(r'^LegitSteps == (\d+)', open(os.path.join(common.VERIF, 'spec', 'MainLoop.tla')).read(), re.M).group(1))
+    seqs = [s for s in sequences_from_graph(g) if s.count('legit') == legit_steps]
+    if len(seqs) < 30:
+        raise common.MachineryError(f'only {len(seqs)} complete schedules in the dumped graph of MainLoop.tla: the edge cover is vacuous')
     if tier == 'thorough' and len(seqs) > 3000:
         seqs = [s for s in seqs if sum(1 for k in s if k != 'legit') <= 1] + rnd.sample([s for s in seqs if sum(1 for k in s if k != 'legit') == 2], 3000)
     # longer hostile bursts from TLC's simulation mode
     sim = tlcgraph.simulate('MainLoop.tla', cfg(4, fair=False, dump=True), 120 if tier == 'quick' else 3000, 20, seed=common.SEED)
     for b in sim:
         s = [a['kind'] if a['a'] == 'Hostile' else 'legit' for a, dd, t, ff in b if a['a'] in ('Hostile', 'Legit')]
-        s += ['legit'] * (5 - s.count('legit'))
+        s += ['legit'] * (legit_steps - s.count('legit'))
         seqs.append(s)
     stats = {'runs': 0, 'events': 0, 'max_lines_per_event': 0, 'kinds': {}}
     for i, s in enumerate(seqs):
         judge(v, s, common.SEED + i, rnd, stats)
+    # a connection with odd values that the loader accepts (Config.tla verdict "either": an empty algorithm list, zero timers) must not make an event for THAT
+    # connection fatal for the daemon: ACQUIRE towards its peer, IKE_SA_INIT from its peer - with the legitimate session of the other peer around them
+    import configuration
+    odd = {'rejected_at_load': 0, 'ran': 0}
+    for edit in ({'dh': []}, {'encr': []}, {'integ': []}, {'prf': []}, {'lifetime': 0, 'dpd': 0}, {'dpd': -5}, {'lifetime': -1}):
+        for seq in (['acquire_silent_peer'] + ['legit'] * legit_steps, ['legit', 'legit', 'init_from_silent_peer', 'acquire_silent_peer'] + ['legit'] * (legit_steps - 2)):
+            try:
+                judge(v, seq, common.SEED, rnd, stats, edit_silent_peer=edit)
+                odd['ran'] += 1
+            except configuration.ConfigurationError:
+                odd['rejected_at_load'] += 1
+    v.coverage['odd_configurations'] = odd
     v.coverage.update({'states': res.distinct, 'transitions': res.generated, 'traces_validated_against_impl': stats['runs'], 'events_through_main_loop': stats['events'],
                        'max_lines_per_event': stats['max_lines_per_event'], 'line_budget': mainloop.LINE_BUDGET, 'kind_occurrences': stats['kinds'],
                        'samples': [{'schedule': seqs[len(seqs) // 2]}, {'schedule': seqs[-1]}]})
